@@ -239,6 +239,7 @@ func (g *Gen) call(v *ssa.Call, c *ssa.CallCommon, ins ssa.Instruction) {
 			env := g.fnEnv(names)
 			env.at = ins
 			env.paramsFirst = false
+			env.pos = true
 			g.atcallSeen[ac] = true
 			t, err := g.eval(ac.Expr, env)
 			if err != nil {
@@ -259,6 +260,18 @@ func (g *Gen) call(v *ssa.Call, c *ssa.CallCommon, ins ssa.Instruction) {
 	}
 	pre := copyState(g.cur)
 	var rt Term
+	if ci.kind == "closure" && ci.fn != nil {
+		// the closure's own contract may name its captured variables: bind them to the cells bound at MakeClosure
+		if mc, ok := c.Value.(*ssa.MakeClosure); ok {
+			g.cloBind = map[string]ssa.Value{}
+			for i, fv := range ci.fn.FreeVars {
+				if i < len(mc.Bindings) {
+					g.cloBind[fv.Name()] = mc.Bindings[i]
+				}
+			}
+			defer func() { g.cloBind = nil }()
+		}
+	}
 	if con != nil {
 		g.assumedUsedNote(con)
 		env := g.calleeEnv(names, ins)
@@ -270,7 +283,7 @@ func (g *Gen) call(v *ssa.Call, c *ssa.CallCommon, ins ssa.Instruction) {
 			}
 			g.oblige("pre", shortKey(ci.key)+":"+rq.Label, t.S, g.pos(ins.Pos()), rq.Text, nil)
 		}
-		if !con.Pure && (len(con.Modifies) > 0 || con.Fresh) {
+		if (!con.Pure && (len(con.Modifies) > 0 || con.Fresh)) || con.Allocates {
 			g.bumpAlloc()
 		}
 		for _, m := range con.Modifies {
@@ -350,6 +363,23 @@ func (g *Gen) calleeEnv(names map[string]Term, ins ssa.Instruction) *Env {
 	e.pkg = g.fnEnv(nil).pkg
 	for k, v := range names {
 		e.names[k] = v
+	}
+	for n, cell := range g.cloBind {
+		if _, shadow := e.names[n]; shadow {
+			continue
+		}
+		et, ok := derefT(cell.Type())
+		if !ok {
+			continue
+		}
+		if _, isSt := structOf(et); isSt {
+			e.names[n] = Term{S: g.term(cell).S, Sort: "Int", T: cell.Type()}
+			continue
+		}
+		a := g.addrOf(cell)
+		if v := g.loadValueIn(g.cur, a, et, 0); v != "" {
+			e.names[n] = Term{S: v, Sort: g.sortOf(et), T: et}
+		}
 	}
 	e.calleeMode = true
 	return e
